@@ -615,7 +615,9 @@ func (m *CmdModel) runFrom(pc int) int {
 			}
 			if strings.HasPrefix(rest, ")") {
 				// a closing parenthesis without a block: reached after a goto into a former block
-				m.unmodelled("stray ) executed at line %d", next)
+				// no emitted script of the unchanged tree ever gets here; what cmd.exe does with such a line is
+				// not part of its documented rules, so a script that depends on it is reported, not guessed at
+				m.scriptError("control reaches the closing parenthesis of a block it is not in (line %d): the behaviour is outside cmd's documented rules", next)
 			}
 			m.unmodelled("trailing text %q at line %d", rest, next)
 		}
